@@ -5,3 +5,26 @@ package main
 func tryReplay(eng *Engine, verif, prop string, it *solveItem, rec map[string]any) string {
 	return ""
 }
+
+// cmdModset prints the computed (flow-insensitive, transitive) modification set of a function: debugging aid.
+func cmdModset(args []string) {
+	pkg, name := args[0], args[1]
+	eng, err := NewEngine("/repo", "/verif", []string{pkg})
+	if err != nil {
+		println(err.Error())
+		return
+	}
+	fn := eng.findFunc(&FuncSpec{Pkg: pkg, Name: name})
+	if fn == nil {
+		println("not found")
+		return
+	}
+	ms := eng.modsetOf(fn)
+	println("unknown:", ms.Unknown, "allocs:", ms.Allocs)
+	for k := range ms.Comps {
+		println("  comp", k)
+	}
+	for k := range ms.Events {
+		println("  event", k)
+	}
+}
